@@ -73,8 +73,8 @@ def expect(kind: int, level: int):
 
 
 class Run:
-    def __init__(self, depth, ka, kb, exc, reenter):
-        self.depth, self.ka, self.kb, self.exc, self.reenter = depth, ka, kb, exc, reenter
+    def __init__(self, depth, ka, kb, exc, reenter, rt=0):
+        self.depth, self.ka, self.kb, self.exc, self.reenter, self.rt = depth, ka, kb, exc, reenter, rt
         self.tags = {}
         self.want = {}
         self.ok = True
@@ -121,7 +121,8 @@ class Run:
                         self.ok = False
                 if self.reenter == level:
                     try:
-                        t.__enter__()
+                        # rt = 0: this block's own tag; rt > 0: a tag whose block is still active further out, re-entered through this block
+                        self.tags[level - self.rt].__enter__()
                         self.ok = False
                     except RuntimeError:
                         pass
@@ -157,8 +158,10 @@ def children_ok(tag, want) -> bool:
     return True
 
 
-def _pre(B, depth, ka1, kb1, e1, ka2, kb2, e2, ka3, kb3, e3, reenter):
+def _pre(B, depth, ka1, kb1, e1, ka2, kb2, e2, ka3, kb3, e3, reenter, rt):
     if not (1 <= depth <= B["D"] and 0 <= reenter <= depth):
+        return False
+    if not (0 <= rt <= 2 and (rt == 0 or rt < reenter)):
         return False
     for k in (ka1, ka2, ka3):
         if not (0 <= k < N_KIND):
@@ -183,14 +186,14 @@ def _pre(B, depth, ka1, kb1, e1, ka2, kb2, e2, ka3, kb3, e3, reenter):
          shard=lambda B: [{"depth": d, "ka1": k, "e1": e} for d in range(1, B["D"] + 1) for k in range(N_KIND) for e in range(4)
                           if not (d == 3 and k not in (2, 4))],
          sel=["depth: nesting of with-blocks", "ka*, kb*: displayed value kinds per level (None, Ellipsis, str, number, _repr_html_ object, tag, invalid, dependency, bare metadata node, TagList)",
-              "e*: exception raised before / after the inner block, or a BaseException that is not an Exception", "reenter: level at which the active tag is re-entered"],
+              "e*: exception raised before / after the inner block, or a BaseException that is not an Exception", "reenter: level at which an active tag is re-entered", "rt: which active tag - this block's own (0) or the one rt levels further out, re-entered through the inner block(s)"],
          targets=["htmltools._core.Tag.__enter__", "htmltools._core.Tag.__exit__", "htmltools._core.wrap_displayhook_handler"],
          stubs=["sys.displayhook is replaced by a recording stub for the duration of a path and restored afterwards"],
          timeout={"quick": 200, "thorough": 1500})
 def h_with_blocks(depth: int, ka1: int, kb1: int, e1: int, ka2: int, kb2: int, e2: int,
-                  ka3: int, kb3: int, e3: int, reenter: int) -> bool:
+                  ka3: int, kb3: int, e3: int, reenter: int, rt: int) -> bool:
     saved = sys.displayhook
-    r = Run(depth, (ka1, ka2, ka3), (kb1, kb2, kb3), (e1, e2, e3), reenter)
+    r = Run(depth, (ka1, ka2, ka3), (kb1, kb2, kb3), (e1, e2, e3), reenter, 0 if rt == 0 else (1 if rt == 1 else 2))
     sys.displayhook = r.h0
     try:
         raised = None
